@@ -374,6 +374,8 @@ class Disassembler:
         items = []
         i = 0
         for size, base in sublengths:
+            if i >= len(data):
+                break
             if not size:
                 size = len(data)
             if base == 'c' and size > 1:
